@@ -125,10 +125,13 @@ def run_chunk(cid, seed, config, start, stop, digest_upto):
     os.close(wfd)
     with os.fdopen(rfd, "rb") as r:
         data = r.read()
-    os.waitpid(pid, 0)
+    _, status = os.waitpid(pid, 0)
     if not data:
+        how = ("killed by signal %d" % os.WTERMSIG(status)
+               if os.WIFSIGNALED(status) else
+               "exit status %d" % os.WEXITSTATUS(status))
         raise HarnessError("the process of chunk %s/%d-%d died without a "
-                           "result" % (config, start, stop))
+                           "result (%s)" % (config, start, stop, how))
     kind, out = pickle.loads(data)
     if kind == "exc":
         raise HarnessError("chunk %s/%d-%d: %s" % (config, start, stop, out))
